@@ -115,6 +115,9 @@ pub mod bits {
             &&& forall|orig: Seq<u8>, p: int| #[trigger] at(orig, i, p) ==>
                 if 8 * orig.len() - p >= count {
                     r is Ok && (count <= O::width() ==> r->Ok_0.1.val() == fld(orig, p, count)) && at(orig, r->Ok_0.0, p + count)
+                    // what `at` says about the new cursor, stated directly (callers that touch the bytes need no unfolding hint)
+                    && r->Ok_0.0.1 == (p + count) % 8
+                    && r->Ok_0.0.0.bytes() == orig.subrange((p + count) / 8, orig.len() as int)
                 } else { r is Err }
         }
 
